@@ -37,9 +37,14 @@ func (e *Exec) def(sort Sort, expr string) *Term {
 		t.Name = expr
 		return t
 	}
+	if n, ok := e.defCache[expr]; ok {
+		t.Name = n
+		return t
+	}
 	e.nterm++
 	t.Name = "t" + strconv.Itoa(e.nterm)
 	e.sol.Send("(define-fun " + t.Name + " () " + sort.String() + " " + expr + ")")
+	e.defCache[expr] = t.Name
 	return t
 }
 
@@ -521,6 +526,67 @@ func (e *Exec) shiftCount(y Int, ty *Term, w uint8) string {
 }
 
 func (e *Exec) intBinINT(op token.Token, x, y Int, tx, ty *Term, xl, xh int64, xok bool, yl, yh int64, yok bool) Int {
+	w, sg := x.W, x.Sg
+	if (op == token.ADD || op == token.SUB) && x.S != nil && y.S != nil && !noRadix {
+		// a dividend that owns a decomposition is the full digit range of it
+		if x.S.Rad == nil && y.S.Rad != nil && y.S.Rad.x.Name == x.S.Name {
+			nt := *x.S
+			nt.Rad, nt.RadHi, nt.RadLo, nt.RadUnit = y.S.Rad, 0, 1, 1
+			x.S = &nt
+		}
+		if y.S.Rad == nil && x.S.Rad != nil && x.S.Rad.x.Name == y.S.Name {
+			nt := *y.S
+			nt.Rad, nt.RadHi, nt.RadLo, nt.RadUnit = x.S.Rad, 0, 1, 1
+			y.S = &nt
+		}
+	}
+	if (op == token.ADD || op == token.SUB) && x.S != nil && y.S != nil && x.S.Rad != nil && x.S.Rad == y.S.Rad && x.S.RadUnit == y.S.RadUnit && !noRadix {
+		r, u := x.S.Rad, x.S.RadUnit
+		h1, l1, h2, l2 := x.S.RadHi, x.S.RadLo, y.S.RadHi, y.S.RadLo
+		if op == token.ADD {
+			if l1 == h2 && h2 != 0 { // x upper, y lower, adjacent
+				return e.radixRange(r, h1, l2, u, w, sg)
+			}
+			if l2 == h1 && h1 != 0 {
+				return e.radixRange(r, h2, l1, u, w, sg)
+			}
+		} else {
+			if h1 == h2 && l2 > l1 { // minus its upper part
+				return e.radixRange(r, l2, l1, u, w, sg)
+			}
+			if l1 == l2 && h2 != 0 && (h1 == 0 || h2 < h1) { // minus its lower part
+				return e.radixRange(r, h1, h2, u, w, sg)
+			}
+		}
+	}
+	if op == token.ADD && xok && yok && !noRadix {
+		// remember the addends of a sum: a later division may rebuild a mixed-radix number from them
+		l, o1 := addOv(xl, yl)
+		h, o2 := addOv(xh, yh)
+		if o1 && o2 && inRange(l, h, w, sg) {
+			var parts []Int
+			for _, a := range []Int{x, y} {
+				if a.S != nil && a.S.Sum != nil {
+					parts = append(parts, a.S.Sum...)
+				} else {
+					parts = append(parts, a)
+				}
+			}
+			if o1 && o2 && inRange(l, h, w, sg) && len(parts) <= 8 {
+				res := e.intBinINTplain(op, x, y, tx, ty, xl, xh, xok, yl, yh, yok)
+				if res.S != nil {
+					nt := *res.S
+					nt.Sum = parts
+					res.S = &nt
+				}
+				return res
+			}
+		}
+	}
+	return e.intBinINTplain(op, x, y, tx, ty, xl, xh, xok, yl, yh, yok)
+}
+
+func (e *Exec) intBinINTplain(op token.Token, x, y Int, tx, ty *Term, xl, xh int64, xok bool, yl, yh int64, yok bool) Int {
 	w, sg := x.W, x.Sg
 	S := Sort{K: SInt}
 	// base+offset normal form: (b + c1) +/- c2 is rebuilt as b + (c1 +/- c2), collapsing to b when the offsets cancel
@@ -1210,6 +1276,16 @@ func (e *Exec) floorReal(v *Term) *Term {
 	if t, ok := e.floorCache[v.Name]; ok {
 		return t
 	}
+	if v.FloorCand != nil {
+		// lemma attempt, decided by the solver: floor(v) is the integer addend of v
+		c := v.FloorCand
+		ok := fmt.Sprintf("(and (<= (to_real %s) %s) (< %s (+ (to_real %s) 1.0)))", c.Name, v.Name, v.Name, c.Name)
+		if e.sol.CheckWith("(not "+ok+")") == "unsat" {
+			e.floorLemmas++
+			e.floorCache[v.Name] = c
+			return c
+		}
+	}
 	if !linDiv {
 		t := e.def(Sort{K: SInt}, "(to_int "+v.Name+")")
 		if v.RBnd && math.Abs(v.RLo) < 1e18 && math.Abs(v.RHi) < 1e18 {
@@ -1322,7 +1398,70 @@ func (e *Exec) radixTag(x Int) (*radix, int64, int64, int64) {
 	if x.S.Rad != nil {
 		return x.S.Rad, x.S.RadHi, x.S.RadLo, x.S.RadUnit
 	}
+	if _, ok := e.radixes[x.S.Name]; !ok && x.S.Sum != nil {
+		e.radixFromSum(x)
+	}
 	return e.radixFor(x), 0, 1, 1
+}
+
+// radixFromSum: x = (top digit range of some decomposition, unit 1, down to coefficient lo) + rest with
+// 0 <= rest < lo is again a mixed-radix number sharing the high digits; register that decomposition for x.
+func (e *Exec) radixFromSum(x Int) {
+	var r *radix
+	type rng struct{ hi, lo int64 }
+	var rs []rng
+	var others []Int
+	for _, a := range x.S.Sum {
+		if a.S != nil && a.S.Rad != nil && a.S.RadUnit == 1 && (r == nil || r == a.S.Rad) {
+			r = a.S.Rad
+			rs = append(rs, rng{a.S.RadHi, a.S.RadLo})
+		} else {
+			others = append(others, a)
+		}
+	}
+	if r == nil {
+		return
+	}
+	// chain the ranges from the top
+	cur := int64(0) // current lower bound; 0 = nothing yet (top is hiEx == 0)
+	used := make([]bool, len(rs))
+	for n := 0; n < len(rs); n++ {
+		found := false
+		for i, g := range rs {
+			if !used[i] && g.hi == cur {
+				used[i], cur, found = true, g.lo, true
+				break
+			}
+		}
+		if !found {
+			return
+		}
+	}
+	lo := cur
+	if lo <= 1 {
+		return
+	}
+	rest := Int{W: x.W, Sg: x.Sg}
+	for _, o := range others {
+		rest = e.intBin(token.ADD, rest, o)
+	}
+	rl, rh, rok := e.ival(rest)
+	if !rok || rl < 0 || rh >= lo {
+		return
+	}
+	idx := -1
+	for m, c := range r.cs {
+		if c == lo {
+			idx = m
+		}
+	}
+	if idx < 0 {
+		return
+	}
+	r2 := &radix{x: x.S, cs: append([]int64{}, r.cs[:idx+1]...)}
+	r2.ds = append(append([]Int{}, r.ds[:idx+1]...), rest)
+	e.radixes[x.S.Name] = r2
+	e.radixDerived++
 }
 
 func (e *Exec) radixDivMod(x Int, k int64) (Int, Int, bool) {
